@@ -27,6 +27,22 @@ const TX_F: Profile = Profile {
     name: "TX",
     faults: true,
 };
+const ADM: Profile = Profile {
+    name: "ADM",
+    faults: false,
+};
+const ADM_F: Profile = Profile {
+    name: "ADM",
+    faults: true,
+};
+const PAUSE: Profile = Profile {
+    name: "PAUSE",
+    faults: false,
+};
+const PAUSE_F: Profile = Profile {
+    name: "PAUSE",
+    faults: true,
+};
 
 pub fn plan(id: &str) -> Option<Plan> {
     Some(match id {
@@ -118,11 +134,43 @@ pub fn plan(id: &str) -> Option<Plan> {
             thorough_runs: 40_000,
             rule: "seeded runs of the transaction-shape profile (shape faults: missing/misplaced/repeated start or end, forbidden inner instruction, foreign/failing program, CPI wrapper; fault-free and fault-injecting halves); one evaluation = one transaction containing a flash-loan start or end; distinct = transaction shape word x verdict",
         },
+        "C12" => Plan {
+            id: "C12",
+            level: "exploration",
+            profiles: vec![ADM, ADM_F, TX],
+            quick_runs: 1600,
+            thorough_runs: 40_000,
+            rule: "seeded runs of the administrator / pause profiles interleaved with market activity (operator churn; fault-free and fault-injecting halves); one evaluation = one successful administrator instruction judged by field-level byte diff of the bank against the role's allowed-write mask (plus: no other bank, group, vault or user account moves), or one deleverage-bracket transaction judged by the reference acceptor; freeze permanence and the daily deleverage window are history checks; distinct = admin ix kind x frozen x set of changed fields, or bracket shape x verdict",
+        },
+        "C13" => Plan {
+            id: "C13",
+            level: "exploration",
+            profiles: vec![ADM, ADM_F],
+            quick_runs: 1600,
+            thorough_runs: 40_000,
+            rule: "seeded runs of the administrator / pause profiles interleaved with market activity (operator churn; fault-free and fault-injecting halves); one evaluation = one accepted or rejected configuration request judged by an independent rational validator of the resulting bank bytes; consequence 'init-healthy implies maint-healthy at equal prices' checked with the real pulse_health on a fork whose oracles are rewritten to spot=EMA, conf=0; distinct = ix kind x verdict x emode/plain x weights-changed",
+        },
+        "C14" => Plan {
+            id: "C14",
+            level: "exploration",
+            profiles: vec![ADM, ADM_F, PAUSE, PAUSE_F],
+            quick_runs: 1600,
+            thorough_runs: 40_000,
+            rule: "seeded runs of the administrator / pause profiles interleaved with market activity (operator churn; fault-free and fault-injecting halves); one evaluation = one financial instruction (accepted or rejected) classified into a cell of the verdict table role x bank state x verdict, or a pause-gated instruction classified by cached-pause region; distinct = cell",
+        },
+        "C15" => Plan {
+            id: "C15",
+            level: "exploration",
+            profiles: vec![PAUSE, PAUSE_F],
+            quick_runs: 1600,
+            thorough_runs: 40_000,
+            rule: "seeded runs of the administrator / pause profiles interleaved with market activity (operator churn; fault-free and fault-injecting halves); one evaluation = one pause/unpause instruction classified by PanicState region (flag, counters, position of now relative to start+1800 and last_reset+86400, boundaries included) x result; canary deposits executed on forks at cached expiry -1/0 and now+3600; distinct = instruction x region x result",
+        },
         _ => return None,
     })
 }
 
-pub const ALL: &[&str] = &["C01", "C02", "C03", "C04", "C05", "C06", "C07", "C10", "C11", "C16", "C17"];
+pub const ALL: &[&str] = &["C01", "C02", "C03", "C04", "C05", "C06", "C07", "C10", "C11", "C12", "C13", "C14", "C15", "C16", "C17"];
 
 pub const ASSUMPTIONS: &[&str] = &[
     "native x86-64 build of the program (same Rust source, overflow-checks on) instead of SBF; compute-unit, heap and stack limits are not modelled",
